@@ -214,6 +214,79 @@ theorem contentOK_blocks (gs : List Group) (l : List α) (h : contentOK gs (l.ma
     simpa [hl] using hb
   · cases h
 
+/-! ### what a valid child list must contain: required particles are present, and the matcher only eats a prefix -/
+
+theorem matchGroup_suffix (g : Group) (ks r : List Name) (h : matchGroup g ks = some r) : ∃ pre, ks = pre ++ r := by
+  obtain ⟨a, b, hl, hr, _⟩ := matchGroup_blocks (fun x : Name => x) g ks r (by simpa using h)
+  refine ⟨a, ?_⟩
+  rw [hl, hr]; simp
+
+theorem matchElem_required (e : ElemP) (ks r : List Name) (h : matchElem e ks = some r) (hm : 1 ≤ e.min) : e.tag ∈ ks := by
+  unfold matchElem at h
+  dsimp only at h
+  split at h
+  · rename_i hc
+    simp only [Bool.and_eq_true, decide_eq_true_eq] at hc
+    have hlen : 1 ≤ (ks.takeWhile (· == e.tag)).length := Nat.le_trans hm hc.1
+    cases ks with
+    | nil => simp at hlen
+    | cons k ks' =>
+      by_cases hk : (k == e.tag) = true
+      · have : k = e.tag := by simpa using hk
+        simp [this]
+      · simp [hk] at hlen
+  · cases h
+
+/-- every element particle that stands in the top-level sequence with minOccurs >= 1 occurs among the children -/
+theorem required_present : ∀ (gs : List Group) (ks r : List Name), matchGroups gs ks = some r → ∀ n ∈ requiredTags gs, n ∈ ks
+  | [], _, _, _, n, hn => by simp [requiredTags] at hn
+  | g :: gs, ks, r, h, n, hn => by
+    unfold matchGroups at h
+    split at h
+    · cases h
+    · rename_i rest hg
+      obtain ⟨pre, hpre⟩ := matchGroup_suffix g ks rest hg
+      have ih := required_present gs rest r h
+      cases g with
+      | elem e =>
+        simp only [requiredTags] at hn
+        split at hn
+        · rename_i hmin
+          rcases List.mem_cons.mp hn with rfl | hn'
+          · exact matchElem_required e ks rest (by simpa [matchGroup] using hg) hmin
+          · rw [hpre]; exact List.mem_append_right _ (ih n hn')
+        · rw [hpre]; exact List.mem_append_right _ (ih n hn)
+      | choice o alts =>
+        simp only [requiredTags] at hn
+        rw [hpre]; exact List.mem_append_right _ (ih n hn)
+
+/-- the legacy guards of an overriding from_node never fire on the children of a valid element -/
+theorem not_diverted {e : ClassEntry} {m : CModel} (hg : guardsOKB e.divertIf e.divertUnless m = true) (tags : List Name)
+    (hv : contentOK m.groups tags = true) : diverted e tags = false := by
+  simp only [guardsOKB, Bool.and_eq_true, List.all_eq_true] at hg
+  obtain ⟨hIf, hUnless⟩ := hg
+  have hB := contentOK_blocks (fun x : Name => x) m.groups tags (by simpa using hv)
+  have hkeys := blocks_keys (fun x : Name => x) (particles m.groups) tags hB
+  unfold diverted
+  rw [Bool.or_eq_false_iff]
+  constructor
+  · rw [List.any_eq_false]
+    intro n hn hc
+    have h1 := hIf n hn
+    have hmem : n ∈ tags := by simpa using hc
+    have : n ∈ modelTags m := hkeys n hmem
+    simp [this] at h1
+  · rw [List.any_eq_false]
+    intro n hn hc
+    have h1 := hUnless n hn
+    rw [List.contains_iff_mem] at h1
+    unfold contentOK at hv
+    split at hv
+    · rename_i hm
+      have := required_present m.groups tags [] hm n h1
+      simp [this] at hc
+    · cases hv
+
 /-! ### selecting children row by row gives the children back -/
 
 /-- what `parse` keeps of a child list, row by row, in row order -/
@@ -238,6 +311,10 @@ theorem keep_eq_self {β : Type} (k : RowKind) (l : List β) (h : k = .multi ∨
     · cases h
     · exact List.take_of_length_le h
   | single =>
+    rcases h with h | h
+    · cases h
+    · exact List.take_of_length_le h
+  | derived =>
     rcases h with h | h
     · cases h
     · exact List.take_of_length_le h
@@ -408,28 +485,47 @@ theorem serializeAll_eq (T : Tabs) (child : Name → ClassId) : ∀ vs : List Va
 
 theorem valTag_parse (T : Tabs) (c : ClassId) : ∀ k : Xml, valTag (parse T c k) = rootTag k
   | .node t as x ks => by
-    cases h : T c <;> simp [parse, h, valTag, rootTag]
+    cases h : T c with
+    | none => simp [parse, h, valTag, rootTag]
+    | some e =>
+      simp only [parse, h, rootTag]
+      split <;> simp [valTag]
 
 theorem keep_map {β γ : Type} (f : β → γ) (k : RowKind) (l : List β) : keep k (l.map f) = (keep k l).map f := by
   cases k <;> simp [keep, List.map_take]
 
-/-- `serialize (parse t)` for a table-driven class: attributes by row, children by row, each child round-tripped -/
+/-- what `serialize (parse ·)` writes for one element row: the derived element, or the kept children round-tripped -/
+def rowOut (T : Tabs) (e : ClassEntry) (ks : List Xml) (r : Row) : List Xml :=
+  if r.kind == .derived then derivedOut e r.tag ks
+  else (keep r.kind (ks.filter (fun k => rootTag k == r.tag))).map (fun k => roundtrip T (e.child (rootTag k)) k)
+
+theorem serialize_raw (T : Tabs) (c : ClassId) (t : Xml) : serialize T c (.raw t) = t := by
+  simp [serialize]
+
+/-- `serialize (parse t)` for a table-driven class whose legacy guards do not fire: attributes by row, children by row -/
 theorem roundtrip_node (T : Tabs) (c : ClassId) (e : ClassEntry) (h : T c = some e)
-    (t : Name) (as : List (Name × String)) (x : String) (ks : List Xml) :
+    (t : Name) (as : List (Name × String)) (x : String) (ks : List Xml) (hd : diverted e (tagsOf ks) = false) :
     roundtrip T c (.node t as x ks)
       = .node t (slotAttrs (attrRows e.tab) ((attrRows e.tab).map (fun r => lookupAttr r.tag as))) x
-          ((selectG rootTag (elemRows e.tab) ks).map (fun k => roundtrip T (e.child (rootTag k)) k)) := by
+          (((elemRows e.tab).map (rowOut T e ks)).flatten) := by
   unfold roundtrip
-  simp only [parse, h, serialize, serializeAll_eq, selectG, List.map_flatten, List.map_map]
+  simp only [parse, h, hd, Bool.false_eq_true, if_false, serialize, serializeAll_eq, List.map_flatten, List.map_map]
   congr 2
   apply List.map_congr_left
   intro r _
-  simp only [Function.comp_def, parseKids_eq, keep_map, List.map_map]
-  apply List.map_congr_left
-  intro k hk
-  have hk' : k ∈ ks.filter (fun k => rootTag k == r.tag) := mem_of_mem_keep _ _ _ hk
-  have : rootTag k = r.tag := by simpa using (List.mem_filter.mp hk').2
-  simp [valTag_parse, this]
+  simp only [Function.comp_def, rowOut]
+  split
+  · simp only [List.map_map]
+    conv => rhs; rw [← List.map_id (derivedOut e r.tag ks)]
+    apply List.map_congr_left
+    intro k _
+    simp [serialize_raw]
+  · simp only [parseKids_eq, keep_map, List.map_map]
+    apply List.map_congr_left
+    intro k hk
+    have hk' : k ∈ ks.filter (fun k => rootTag k == r.tag) := mem_of_mem_keep _ _ _ hk
+    have : rootTag k = r.tag := by simpa using (List.mem_filter.mp hk').2
+    simp [valTag_parse, this, roundtrip]
 
 theorem roundtrip_opaque (T : Tabs) (c : ClassId) (h : T c = none) (t : Xml) : roundtrip T c t = t := by
   cases t with
@@ -492,14 +588,70 @@ theorem validKids_of_equiv (S : Schema) (child : Name → TypeId) : ∀ (ks ls :
     exact ⟨valid_of_equiv S _ _ _ h hv.1, validKids_of_equiv S child _ _ hs hv.2⟩
 end
 
+/-! ### lists of trees: equivalence of concatenations; the bookkeeping premise unfolded -/
+
+theorem equivList_append : ∀ {a b c d : List Xml}, EquivList a b → EquivList c d → EquivList (a ++ c) (b ++ d)
+  | _, _, _, _, .nil, h => by simpa using h
+  | _, _, _, _, .cons h hs, h' => by simpa using EquivList.cons h (equivList_append hs h')
+
+theorem equivList_flatten {β : Type} (f g : β → List Xml) : ∀ rows : List β, (∀ r ∈ rows, EquivList (f r) (g r)) →
+    EquivList ((rows.map f).flatten) ((rows.map g).flatten)
+  | [], _ => by simpa using EquivList.nil
+  | r :: rows, h => by
+    simp only [List.map_cons, List.flatten_cons]
+    exact equivList_append (h r (List.mem_cons_self ..)) (equivList_flatten f g rows (fun r' hr' => h r' (List.mem_cons_of_mem _ hr')))
+
+theorem equivList_map (f : Xml → Xml) : ∀ l : List Xml, (∀ k ∈ l, Equiv (f k) k) → EquivList (l.map f) l
+  | [], _ => EquivList.nil
+  | k :: l, h => EquivList.cons (h k (List.mem_cons_self ..)) (equivList_map f l (fun k' hk' => h k' (List.mem_cons_of_mem _ hk')))
+
+theorem equivList_map_inv (f : Xml → Xml) : ∀ l : List Xml, EquivList (l.map f) l → ∀ k ∈ l, Equiv (f k) k
+  | [], _, _, hk => nomatch hk
+  | a :: l, h, k, hk => by
+    simp only [List.map_cons] at h
+    cases h with
+    | cons h1 h2 =>
+      rcases List.mem_cons.mp hk with rfl | hk'
+      · exact h1
+      · exact equivList_map_inv f l h2 k hk'
+
+theorem bookkeptKids_iff (T : Tabs) (child : Name → ClassId) : ∀ ks : List Xml,
+    bookkeptKids T child ks = true ↔ ∀ k ∈ ks, bookkeptB T (child (rootTag k)) k = true
+  | [] => by simp [bookkeptKids]
+  | k :: ks => by simp [bookkeptKids, bookkeptKids_iff T child ks]
+
+/-- under the bookkeeping premise the children named like a derived row are exactly what the class writes there -/
+theorem derivedOK_eq (e : ClassEntry) (tag : Name) (ks : List Xml) (h : derivedOK e tag ks = true) :
+    ks.filter (fun k => rootTag k == tag) = derivedOut e tag ks := by
+  unfold derivedOK at h
+  unfold derivedOut
+  split at h
+  · rename_i s t x hd hf
+    have hx : x = s := by simpa using h
+    have hmem : (Xml.node t [] x []) ∈ ks.filter (fun k => rootTag k == tag) := by rw [hf]; simp
+    have ht : t = tag := by simpa [rootTag] using (List.mem_filter.mp hmem).2
+    rw [hd, hf, hx, ht]
+  · rename_i hd hf
+    rw [hd, hf]
+  · cases h
+
+theorem keep_derivedOut (k : RowKind) (e : ClassEntry) (tag : Name) (ks : List Xml) :
+    keep k (derivedOut e tag ks) = derivedOut e tag ks := by
+  unfold derivedOut
+  split <;> cases k <;> simp [keep]
+
 /-! ### the property -/
 
-/-- `R` pairs classes with complex types, is closed under children, and every table-driven class it
-    mentions conforms (weakly) to the type it is paired with.  Opaque classes (`T c = none`) may be
-    paired with anything: their subtrees are carried through unchanged. -/
+/-- `R` pairs classes with complex types, is closed under children, every table-driven class it mentions
+    conforms (weakly) to the type it is paired with, and the legacy guards of its from_node override (if any)
+    cannot fire on a tree valid for that type.  Opaque classes (`T c = none`) may be paired with anything:
+    their subtrees are carried through unchanged.  (Hook for C05X: a class with a hand-written codec - polynomial
+    coefficient arrays, indexed arrays, parameter collections - enters here as soon as its own round-trip lemma
+    exists; until then it is opaque and listed by the translator.) -/
 structure Closed (T : Tabs) (S : Schema) (R : ClassId → TypeId → Prop) : Prop where
   step : ∀ c ty, R c ty → ∀ e, T c = some e →
-    ∃ te, S ty = some te ∧ ConformsWeak e.tab te.model ∧ ∀ n ∈ modelTags te.model, R (e.child n) (te.child n)
+    ∃ te, S ty = some te ∧ ConformsWeak e.tab te.model ∧ guardsOKB e.divertIf e.divertUnless te.model = true
+      ∧ ∀ n ∈ modelTags te.model, R (e.child n) (te.child n)
 
 section main
 variable {T : Tabs} {S : Schema} {R : ClassId → TypeId → Prop}
@@ -520,17 +672,19 @@ theorem declared_has_row {tab : ClassTab} {m : CModel} (hc : conformsWeakB tab m
 
 mutual
 theorem roundtrip_equiv_aux (hC : Closed T S R) : ∀ (t : Xml) (c : ClassId) (ty : TypeId), R c ty → validB S ty t = true →
-    Equiv (roundtrip T c t) t
-  | .node tg as x ks, c, ty, hR, hv => by
+    bookkeptB T c t = true → Equiv (roundtrip T c t) t
+  | .node tg as x ks, c, ty, hR, hv, hb => by
     cases hT : T c with
     | none => rw [roundtrip_opaque T c hT]; exact equiv_refl _
     | some e =>
-      obtain ⟨te, hS, hconf, hch⟩ := hC.step c ty hR e hT
-      rw [roundtrip_node T c e hT]
+      obtain ⟨te, hS, hconf, hg, hch⟩ := hC.step c ty hR e hT
       simp only [validB, hS, Bool.and_eq_true] at hv
       obtain ⟨⟨ha, hcont⟩, hkids⟩ := hv
+      rw [roundtrip_node T c e hT tg as x ks (not_diverted hg (tagsOf ks) hcont)]
+      simp only [bookkeptB, hT, Bool.and_eq_true] at hb
+      obtain ⟨hder, hbk⟩ := hb
       rw [tagsOf_eq] at hcont
-      rw [select_eq_self rootTag e.tab te.model ks hconf hcont]
+      have hsel := select_eq_self rootTag e.tab te.model ks hconf hcont
       have hkeys := blocks_keys rootTag _ ks (contentOK_blocks rootTag te.model.groups ks hcont)
       have hnodup : (as.map (·.1)).Nodup := by
         simp only [attrsOK, Bool.and_eq_true, decide_eq_true_eq] at ha
@@ -540,28 +694,77 @@ theorem roundtrip_equiv_aux (hC : Closed T S R) : ∀ (t : Xml) (c : ClassId) (t
         simp only [ConformsWeak, conformsWeakB, Bool.and_eq_true, decide_eq_true_eq] at hc
         exact hc.1.1.1.2
       refine Equiv.node (attrs_perm _ as hnodup hrn (declared_has_row hconf ha)) ?_
-      exact roundtrip_equiv_kids hC ks e.child te.child (fun k hk => hch _ (hkeys k hk))
-        ((validKids_iff S te.child ks).mp hkids)
+      have hpoint := equivList_map_inv _ ks (roundtrip_equiv_kids hC ks e.child te.child (fun k hk => hch _ (hkeys k hk))
+        ((validKids_iff S te.child ks).mp hkids) ((bookkeptKids_iff T e.child ks).mp hbk))
+      have hrows : EquivList (((elemRows e.tab).map (rowOut T e ks)).flatten) (selectG rootTag (elemRows e.tab) ks) := by
+        unfold selectG
+        apply equivList_flatten
+        intro r hr
+        unfold rowOut
+        split
+        · rename_i hk
+          have hk' : r.kind = .derived := by simpa using hk
+          have hok : derivedOK e r.tag ks = true := by
+            have := List.all_eq_true.mp hder r hr
+            simpa [hk'] using this
+          rw [derivedOK_eq e r.tag ks hok, keep_derivedOut]
+          exact equivList_refl _
+        · exact equivList_map _ _ (fun k hk => hpoint k (List.mem_filter.mp (mem_of_mem_keep _ _ _ hk)).1)
+      rw [hsel] at hrows
+      exact hrows
 theorem roundtrip_equiv_kids (hC : Closed T S R) : ∀ (ks : List Xml) (cc : Name → ClassId) (ct : Name → TypeId),
     (∀ k ∈ ks, R (cc (rootTag k)) (ct (rootTag k))) → (∀ k ∈ ks, validB S (ct (rootTag k)) k = true) →
+    (∀ k ∈ ks, bookkeptB T (cc (rootTag k)) k = true) →
     EquivList (ks.map (fun k => roundtrip T (cc (rootTag k)) k)) ks
-  | [], _, _, _, _ => EquivList.nil
-  | k :: ks, cc, ct, hR, hv =>
-    EquivList.cons (roundtrip_equiv_aux hC k _ _ (hR k (List.mem_cons_self ..)) (hv k (List.mem_cons_self ..)))
-      (roundtrip_equiv_kids hC ks cc ct (fun k' hk' => hR k' (List.mem_cons_of_mem _ hk')) (fun k' hk' => hv k' (List.mem_cons_of_mem _ hk')))
+  | [], _, _, _, _, _ => EquivList.nil
+  | k :: ks, cc, ct, hR, hv, hb =>
+    EquivList.cons (roundtrip_equiv_aux hC k _ _ (hR k (List.mem_cons_self ..)) (hv k (List.mem_cons_self ..)) (hb k (List.mem_cons_self ..)))
+      (roundtrip_equiv_kids hC ks cc ct (fun k' hk' => hR k' (List.mem_cons_of_mem _ hk')) (fun k' hk' => hv k' (List.mem_cons_of_mem _ hk'))
+        (fun k' hk' => hb k' (List.mem_cons_of_mem _ hk')))
 end
 
-/-- **C06, content**: for every tree `t` valid for type `ty`, if class `c` is paired with `ty` by a closed
-    conforming pairing, parsing `t` into class `c` and serialising it again gives the same elements, attributes
-    and values in the same order.  Unbounded in the size and depth of `t`. -/
-theorem roundtrip_equiv (hC : Closed T S R) (c : ClassId) (ty : TypeId) (hR : R c ty) (t : Xml) (hv : Valid S ty t) :
-    Equiv (serialize T c (parse T c t)) t :=
-  roundtrip_equiv_aux hC t c ty hR hv
+/-- **C06, content**: for every tree `t` valid for type `ty` that keeps the bookkeeping of the classes reading it, if
+    class `c` is paired with `ty` by a closed conforming pairing, parsing `t` into class `c` and serialising it again
+    gives the same elements, attributes and values in the same order.  Unbounded in the size and depth of `t`. -/
+theorem roundtrip_equiv (hC : Closed T S R) (c : ClassId) (ty : TypeId) (hR : R c ty) (t : Xml) (hv : Valid S ty t)
+    (hb : Bookkept T c t) : Equiv (serialize T c (parse T c t)) t :=
+  roundtrip_equiv_aux hC t c ty hR hv hb
 
 /-- **C06, validity**: ... and the output is valid for the same type. -/
-theorem roundtrip_valid (hC : Closed T S R) (c : ClassId) (ty : TypeId) (hR : R c ty) (t : Xml) (hv : Valid S ty t) :
-    Valid S ty (serialize T c (parse T c t)) :=
-  valid_of_equiv S _ _ ty (roundtrip_equiv hC c ty hR t hv) hv
+theorem roundtrip_valid (hC : Closed T S R) (c : ClassId) (ty : TypeId) (hR : R c ty) (t : Xml) (hv : Valid S ty t)
+    (hb : Bookkept T c t) : Valid S ty (serialize T c (parse T c t)) :=
+  valid_of_equiv S _ _ ty (roundtrip_equiv hC c ty hR t hv hb) hv
+
+/-- no class has a read-only property among its rows (the situation of the first version of this model) -/
+def NoDerived (T : Tabs) : Prop := ∀ c e, T c = some e → ∀ r ∈ elemRows e.tab, r.kind ≠ .derived
+
+mutual
+theorem bookkept_of_noDerived (h : NoDerived T) : ∀ (t : Xml) (c : ClassId), bookkeptB T c t = true
+  | .node tg as x ks, c => by
+    cases hT : T c with
+    | none => simp [bookkeptB, hT]
+    | some e =>
+      simp only [bookkeptB, hT, Bool.and_eq_true]
+      refine ⟨?_, bookkeptKids_of_noDerived h ks e.child⟩
+      rw [List.all_eq_true]
+      intro r hr
+      have := h c e hT r hr
+      simp [this]
+theorem bookkeptKids_of_noDerived (h : NoDerived T) : ∀ (ks : List Xml) (cc : Name → ClassId), bookkeptKids T cc ks = true
+  | [], _ => by simp [bookkeptKids]
+  | k :: ks, cc => by
+    simp only [bookkeptKids, Bool.and_eq_true]
+    exact ⟨bookkept_of_noDerived h k _, bookkeptKids_of_noDerived h ks cc⟩
+end
+
+/-- the statement of the first version (no derived rows: no bookkeeping premise needed) is a corollary -/
+theorem roundtrip_equiv_plain (hC : Closed T S R) (hN : NoDerived T) (c : ClassId) (ty : TypeId) (hR : R c ty) (t : Xml)
+    (hv : Valid S ty t) : Equiv (serialize T c (parse T c t)) t :=
+  roundtrip_equiv hC c ty hR t hv (bookkept_of_noDerived hN t c)
+
+theorem roundtrip_valid_plain (hC : Closed T S R) (hN : NoDerived T) (c : ClassId) (ty : TypeId) (hR : R c ty) (t : Xml)
+    (hv : Valid S ty t) : Valid S ty (serialize T c (parse T c t)) :=
+  roundtrip_valid hC c ty hR t hv (bookkept_of_noDerived hN t c)
 
 end main
 
@@ -571,96 +774,172 @@ theorem conforms_weak_of_conforms (tab : ClassTab) (m : CModel) (h : Conforms ta
   simp only [Bool.and_eq_true] at h
   exact h.1.1
 
-/-- the decidable closure check of a finite presentation gives `Closed` -/
-theorem closed_of_closedB (cs : List ClassData) (ts : List TypeData) (pairs : List (ClassId × TypeId))
-    (h : closedB cs ts pairs = true) : Closed (mkTabs cs) (mkSchema ts) (fun c ty => (c, ty) ∈ pairs) := by
+/-- the tables of a presentation do not depend on what the derived properties write, except for `derive` itself -/
+theorem mkTabsD_some (D : Deriver) (cs : List ClassData) (c : ClassId) (e : ClassEntry) (h : mkTabsD D cs c = some e) :
+    ∃ e0, mkTabs cs c = some e0 ∧ e0.tab = e.tab ∧ e0.child = e.child ∧ e0.divertIf = e.divertIf ∧ e0.divertUnless = e.divertUnless := by
+  unfold mkTabs
+  unfold mkTabsD at h ⊢
+  cases hf : cs.find? (fun d => d.id == c) with
+  | none => simp [hf] at h
+  | some d =>
+    simp only [hf, Option.map_some, Option.some.injEq] at h ⊢
+    subst h
+    exact ⟨_, rfl, rfl, rfl, rfl, rfl⟩
+
+/-- the decidable closure check of a finite presentation gives `Closed`, whatever the derived properties write -/
+theorem closed_of_closedB (D : Deriver) (cs : List ClassData) (ts : List TypeData) (pairs : List (ClassId × TypeId))
+    (h : closedB cs ts pairs = true) : Closed (mkTabsD D cs) (mkSchema ts) (fun c ty => (c, ty) ∈ pairs) := by
   constructor
   intro c ty hR e hT
+  obtain ⟨e0, hT0, htab, hchild, hif, hun⟩ := mkTabsD_some D cs c e hT
   have hp := List.all_eq_true.mp h (c, ty) hR
-  simp only [hT] at hp
+  simp only [hT0] at hp
   split at hp
   · cases hp
   · rename_i te hS
     simp only [Bool.and_eq_true] at hp
-    refine ⟨te, hS, hp.1, ?_⟩
-    intro n hn
-    have := List.all_eq_true.mp hp.2 n hn
-    rw [List.contains_iff_mem] at this
-    exact this
+    refine ⟨te, hS, ?_, ?_, ?_⟩
+    · rw [← htab]; exact hp.1.1
+    · rw [← hif, ← hun]; exact hp.1.2
+    · intro n hn
+      have := List.all_eq_true.mp hp.2 n hn
+      rw [List.contains_iff_mem] at this
+      rw [← hchild]
+      exact this
 
 /-- **C06 on the modelled fragment** (partial: see the header for what the fragment leaves out).
     For a schema version presented by finite tables whose closure check passes, every tree valid for a listed
-    type, parsed into the class paired with it and serialised again, is valid for the same type and has the same
-    elements, attributes and values in the same order.  No bound on the size of the tree. -/
-theorem c06_roundtrip_partial (cs : List ClassData) (ts : List TypeData) (pairs : List (ClassId × TypeId))
+    type that keeps the classes' bookkeeping (whatever function `D` the read-only properties compute), parsed into
+    the class paired with it and serialised again, is valid for the same type and has the same elements,
+    attributes and values in the same order.  No bound on the size of the tree. -/
+theorem c06_roundtrip_partial (D : Deriver) (cs : List ClassData) (ts : List TypeData) (pairs : List (ClassId × TypeId))
     (h : closedB cs ts pairs = true) (c : ClassId) (ty : TypeId) (hp : (c, ty) ∈ pairs) (t : Xml)
+    (hv : Valid (mkSchema ts) ty t) (hb : Bookkept (mkTabsD D cs) c t) :
+    Valid (mkSchema ts) ty (serialize (mkTabsD D cs) c (parse (mkTabsD D cs) c t))
+      ∧ Equiv (serialize (mkTabsD D cs) c (parse (mkTabsD D cs) c t)) t :=
+  ⟨roundtrip_valid (closed_of_closedB D cs ts pairs h) c ty hp t hv hb,
+   roundtrip_equiv (closed_of_closedB D cs ts pairs h) c ty hp t hv hb⟩
+
+/-- a presentation without derived rows: `NoDerived` -/
+def noDerivedB (cs : List ClassData) : Bool := cs.all (fun d => (elemRows d.tab).all (fun r => r.kind != .derived))
+
+theorem noDerived_of_noDerivedB (D : Deriver) (cs : List ClassData) (h : noDerivedB cs = true) : NoDerived (mkTabsD D cs) := by
+  intro c e hT r hr
+  unfold mkTabsD at hT
+  cases hf : cs.find? (fun d => d.id == c) with
+  | none => simp [hf] at hT
+  | some d =>
+    simp only [hf, Option.map_some, Option.some.injEq] at hT
+    subst hT
+    have hd : d ∈ cs := List.mem_of_find?_eq_some hf
+    have := List.all_eq_true.mp (List.all_eq_true.mp h d hd) r hr
+    simpa using this
+
+/-- the statement of the first version of this file, as a corollary: presentations without derived rows need no
+    bookkeeping premise -/
+theorem c06_roundtrip_plain_partial (cs : List ClassData) (ts : List TypeData) (pairs : List (ClassId × TypeId))
+    (h : closedB cs ts pairs = true) (hn : noDerivedB cs = true) (c : ClassId) (ty : TypeId) (hp : (c, ty) ∈ pairs) (t : Xml)
     (hv : Valid (mkSchema ts) ty t) :
     Valid (mkSchema ts) ty (serialize (mkTabs cs) c (parse (mkTabs cs) c t))
       ∧ Equiv (serialize (mkTabs cs) c (parse (mkTabs cs) c t)) t :=
-  ⟨roundtrip_valid (closed_of_closedB cs ts pairs h) c ty hp t hv,
-   roundtrip_equiv (closed_of_closedB cs ts pairs h) c ty hp t hv⟩
+  c06_roundtrip_partial noDerive cs ts pairs h c ty hp t hv (bookkept_of_noDerived (noDerived_of_noDerivedB noDerive cs hn) t c)
 
 /-! ### the hypotheses are satisfiable, and each conformance condition is needed -/
 
 section examples
 
-/-- names: 1 Root, 2 Name, 3 Item, 4 Point, 5 Line, 6 X, 7 Y, 10 id (attribute), 11 index (attribute), 12 note (attribute) -/
+/-- names: 1 Root, 2 Name, 3 Item, 4 Point, 5 Line, 6 X, 7 Y, 8 NumItems (read-only counter), 9 OldItem (legacy child),
+    10 id (attribute), 11 index (attribute), 12 note (attribute) -/
 def exClasses : List ClassData := [
-  ⟨0, [], []⟩,                                                                    -- leaf values
-  ⟨1, [⟨10, .attr⟩, ⟨12, .attr⟩, ⟨2, .single⟩, ⟨3, .multi⟩, ⟨4, .single⟩, ⟨5, .single⟩], [(3, 2), (4, 3), (5, 3)]⟩,
-  ⟨2, [⟨11, .attr⟩, ⟨6, .single⟩], []⟩,                                            -- Item: index attribute + X
-  ⟨3, [⟨6, .single⟩, ⟨7, .single⟩], []⟩]                                           -- Point / Line: X, Y
+  ⟨0, [], [], [], []⟩,                                                            -- leaf values
+  ⟨1, [⟨10, .attr⟩, ⟨12, .attr⟩, ⟨2, .single⟩, ⟨8, .derived⟩, ⟨3, .multi⟩, ⟨4, .single⟩, ⟨5, .single⟩], [(3, 2), (4, 3), (5, 3)],
+      [9], [2]⟩,                                                                  -- Root: from_node diverts on OldItem / on a missing Name
+  ⟨2, [⟨11, .attr⟩, ⟨6, .single⟩], [], [], []⟩,                                    -- Item: index attribute + X
+  ⟨3, [⟨6, .single⟩, ⟨7, .single⟩], [], [], []⟩]                                   -- Point / Line: X, Y
 
 def exTypes : List TypeData := [
   ⟨1, ⟨[], []⟩, []⟩,                                                              -- simple content
-  ⟨2, ⟨[⟨10, true⟩, ⟨12, false⟩], [.elem ⟨2, 1, some 1⟩, .elem ⟨3, 0, none⟩, .choice false [[⟨4, 1, some 1⟩], [⟨5, 1, some 1⟩]]]⟩,
-      [(2, 1), (3, 3), (4, 4), (5, 4)]⟩,
+  ⟨2, ⟨[⟨10, true⟩, ⟨12, false⟩], [.elem ⟨2, 1, some 1⟩, .elem ⟨8, 1, some 1⟩, .elem ⟨3, 0, none⟩,
+        .choice false [[⟨4, 1, some 1⟩], [⟨5, 1, some 1⟩]]]⟩,
+      [(2, 1), (8, 1), (3, 3), (4, 4), (5, 4)]⟩,
   ⟨3, ⟨[⟨11, true⟩], [.elem ⟨6, 1, some 1⟩]⟩, [(6, 1)]⟩,
   ⟨4, ⟨[], [.elem ⟨6, 1, some 1⟩, .elem ⟨7, 0, some 1⟩]⟩, [(6, 1), (7, 1)]⟩]
 
 def exPairs : List (ClassId × TypeId) := [(1, 2), (0, 1), (2, 3), (3, 4)]
 
+/-- what the read-only property of Root writes: the number of Item children -/
+def exD : Deriver := fun c tag ks =>
+  if c == 1 && tag == 8 then
+    some (match (ks.filter (fun k => rootTag k == 3)).length with | 0 => "0" | 1 => "1" | 2 => "2" | _ => "many")
+  else none
+
 def exDoc : Xml :=
   .node 1 [(12, "n"), (10, "a7")] "" [
     .node 2 [] "name" [],
+    .node 8 [] "2" [],
     .node 3 [(11, "1")] "" [.node 6 [] "1.5" []],
     .node 3 [(11, "2")] "" [.node 6 [] "2.5" []],
     .node 5 [] "" [.node 6 [] "0" [], .node 7 [] "1" []]]
 
 example : closedB exClasses exTypes exPairs = true := by decide
 example : Valid (mkSchema exTypes) 2 exDoc := by decide
-example : Conforms [⟨10, .attr⟩, ⟨12, .attr⟩, ⟨2, .single⟩, ⟨3, .multi⟩, ⟨4, .single⟩, ⟨5, .single⟩]
-    ⟨[⟨10, true⟩, ⟨12, false⟩], [.elem ⟨2, 1, some 1⟩, .elem ⟨3, 0, none⟩, .choice false [[⟨4, 1, some 1⟩], [⟨5, 1, some 1⟩]]]⟩ := by decide
+example : Bookkept (mkTabsD exD exClasses) 1 exDoc := by decide
+example : Conforms [⟨10, .attr⟩, ⟨12, .attr⟩, ⟨2, .single⟩, ⟨8, .derived⟩, ⟨3, .multi⟩, ⟨4, .single⟩, ⟨5, .single⟩]
+    ⟨[⟨10, true⟩, ⟨12, false⟩], [.elem ⟨2, 1, some 1⟩, .elem ⟨8, 1, some 1⟩, .elem ⟨3, 0, none⟩,
+      .choice false [[⟨4, 1, some 1⟩], [⟨5, 1, some 1⟩]]]⟩ := by decide
 
 /-- the theorem applied to the example document -/
-example : Valid (mkSchema exTypes) 2 (serialize (mkTabs exClasses) 1 (parse (mkTabs exClasses) 1 exDoc))
-    ∧ Equiv (serialize (mkTabs exClasses) 1 (parse (mkTabs exClasses) 1 exDoc)) exDoc :=
-  c06_roundtrip_partial exClasses exTypes exPairs (by decide) 1 2 (by decide) exDoc (by decide)
+example : Valid (mkSchema exTypes) 2 (serialize (mkTabsD exD exClasses) 1 (parse (mkTabsD exD exClasses) 1 exDoc))
+    ∧ Equiv (serialize (mkTabsD exD exClasses) 1 (parse (mkTabsD exD exClasses) 1 exDoc)) exDoc :=
+  c06_roundtrip_partial exD exClasses exTypes exPairs (by decide) 1 2 (by decide) exDoc (by decide) (by decide)
 
-/-- and the output, computed: attributes come out in row order, children as they were -/
-example : roundtrip (mkTabs exClasses) 1 exDoc =
+/-- and the output, computed: attributes come out in row order, children as they were, the counter re-derived -/
+example : roundtrip (mkTabsD exD exClasses) 1 exDoc =
     .node 1 [(10, "a7"), (12, "n")] "" [
       .node 2 [] "name" [],
+      .node 8 [] "2" [],
       .node 3 [(11, "1")] "" [.node 6 [] "1.5" []],
       .node 3 [(11, "2")] "" [.node 6 [] "2.5" []],
       .node 5 [] "" [.node 6 [] "0" [], .node 7 [] "1" []]] := by rfl
 
+/-- the bookkeeping premise is needed: a document whose counter disagrees with its children is valid, but the class
+    writes the count it derives, so the output differs from the input -/
+def badCount : Xml :=
+  .node 1 [(10, "a7")] "" [.node 2 [] "name" [], .node 8 [] "7" [], .node 3 [(11, "1")] "" [.node 6 [] "1.5" []], .node 4 [] "" [.node 6 [] "0" []]]
+example : Valid (mkSchema exTypes) 2 badCount ∧ ¬ Bookkept (mkTabsD exD exClasses) 1 badCount := by decide
+example : roundtrip (mkTabsD exD exClasses) 1 badCount =
+    .node 1 [(10, "a7")] "" [.node 2 [] "name" [], .node 8 [] "1" [], .node 3 [(11, "1")] "" [.node 6 [] "1.5" []], .node 4 [] "" [.node 6 [] "0" []]] := by rfl
+
+/-- the guard conditions are needed: if the legacy tag OldItem (9) were an element of the type, or the guarded element
+    Name (2) were optional, `guardsOKB` fails - and a valid tree can then take the unmodelled legacy path -/
+example : guardsOKB [9] [2] ⟨[], [.elem ⟨2, 1, some 1⟩, .elem ⟨9, 0, some 1⟩]⟩ = false := by decide
+example : guardsOKB [9] [2] ⟨[], [.elem ⟨2, 0, some 1⟩]⟩ = false := by decide
+example : guardsOKB [9] [2] ⟨[], [.choice false [[⟨2, 1, some 1⟩], [⟨4, 1, some 1⟩]]]⟩ = false := by decide
+example : roundtrip (mkTabsD exD exClasses) 1 (.node 1 [(10, "a")] "" [.node 9 [] "" []]) = .node 1 [] "" [] := by rfl
+
 /-- a class table that lacks the row of a required attribute (the shape of the CPHD `index` defect): not conforming,
     and the attribute is lost, the output invalid -/
-def dropClasses : List ClassData := [⟨0, [], []⟩, ⟨2, [⟨6, .single⟩], []⟩]
+def dropClasses : List ClassData := [⟨0, [], [], [], []⟩, ⟨2, [⟨6, .single⟩], [], [], []⟩]
 example : conformsWeakB [⟨6, .single⟩] ⟨[⟨11, true⟩], [.elem ⟨6, 1, some 1⟩]⟩ = false := by decide
 example : roundtrip (mkTabs dropClasses) 2 (.node 3 [(11, "1")] "" [.node 6 [] "1.5" []]) = .node 3 [] "" [.node 6 [] "1.5" []] := by rfl
 example : validB (mkSchema exTypes) 3 (.node 3 [(11, "1")] "" [.node 6 [] "1.5" []]) = true
     ∧ validB (mkSchema exTypes) 3 (roundtrip (mkTabs dropClasses) 2 (.node 3 [(11, "1")] "" [.node 6 [] "1.5" []])) = false := by decide
 
 /-- rows in another order than the particles (the shape of the CPHD `NumSegments` defect): not conforming, output invalid -/
-def orderClasses : List ClassData := [⟨0, [], []⟩, ⟨3, [⟨7, .single⟩, ⟨6, .single⟩], []⟩]
+def orderClasses : List ClassData := [⟨0, [], [], [], []⟩, ⟨3, [⟨7, .single⟩, ⟨6, .single⟩], [], [], []⟩]
 example : conformsWeakB [⟨7, .single⟩, ⟨6, .single⟩] ⟨[], [.elem ⟨6, 1, some 1⟩, .elem ⟨7, 0, some 1⟩]⟩ = false := by decide
 example : validB (mkSchema exTypes) 4 (.node 4 [] "" [.node 6 [] "0" [], .node 7 [] "1" []]) = true
     ∧ validB (mkSchema exTypes) 4 (roundtrip (mkTabs orderClasses) 3 (.node 4 [] "" [.node 6 [] "0" [], .node 7 [] "1" []])) = false := by decide
 
 /-- a single-valued row facing a repeatable element: not conforming, the second occurrence is lost -/
 example : conformsWeakB [⟨3, .single⟩] ⟨[], [.elem ⟨3, 0, none⟩]⟩ = false := by decide
+
+/-- a presentation without derived rows needs no bookkeeping premise (the first version's statement) -/
+def plainClasses : List ClassData := [⟨0, [], [], [], []⟩, ⟨3, [⟨6, .single⟩, ⟨7, .single⟩], [], [], []⟩]
+example (t : Xml) (hv : Valid (mkSchema exTypes) 4 t) :
+    Valid (mkSchema exTypes) 4 (serialize (mkTabs plainClasses) 3 (parse (mkTabs plainClasses) 3 t))
+      ∧ Equiv (serialize (mkTabs plainClasses) 3 (parse (mkTabs plainClasses) 3 t)) t :=
+  c06_roundtrip_plain_partial plainClasses exTypes [(3, 4), (0, 1)] (by decide) (by decide) 3 4 (by decide) t hv
 
 end examples
 
